@@ -12,7 +12,7 @@ import gen
 import proofs
 from common import VERIF, log
 
-REPLAYS = os.path.join(VERIF, "replays")
+REPLAYS = os.path.join(common.OUT, "replays")
 
 TRUSTED_BASE = [
     "Coq 8.16.1 kernel (coqc); vm_compute in Examples/refutation witnesses; no native_compute; no axioms (Print Assumptions: closed under the global context)",
@@ -353,7 +353,7 @@ def decide(prop, tier, seed, t0):
                         "Layer-B statements rely on the rustc assumptions S1-S7/U1 of DESIGN.md section 6"],
         "wall_s": round(wall, 2), "violations": len(violations),
     }
-    common.write_json(os.path.join(VERIF, "evidence", prop + ".json"), evidence)
+    common.write_json(os.path.join(common.OUT, "evidence", prop + ".json"), evidence)
     for line in known_lines:
         print(line)
     for path, tail in violations:
